@@ -675,7 +675,10 @@ def build_comp(c):
         d = csr.Multiplexer(MemoryMap(addr_width=c["aw"], data_width=c["dw"]))
         return d, [("bus", d.bus)]
     if k == "csrdec":
-        d = csr.Decoder(addr_width=c["aw"], data_width=c["dw"])
+        # the alignment (of the decoder's memory map) has no say in the bus port: 0 .. addr_width + 2, by the
+        # shape of the case, values above the address width included
+        al = (c["aw"] * 3 + c["dw"]) % (c["aw"] + 3) if isinstance(c["aw"], int) and isinstance(c["dw"], int) and c["aw"] > 0 else 0
+        d = csr.Decoder(addr_width=c["aw"], data_width=c["dw"], alignment=al)
         return d, [("bus", d.bus)]
     if k == "bridge":
         reg = csr.Register(csr.Field(action.RW, 3), access="rw")
